@@ -20,12 +20,31 @@ theorem tiny_pos : (0 : ℝ) < (tiny100 : ℝ) := by
   have := eps_bounds.1
   simp only [tiny100]; num_real; positivity
 
+/-- `intersect_triangle` with the range tests written out -/
+theorem intersectTriangle_eq {α : Type} [Num α] (ray : Ray α) (vertex0 vertex1 vertex2 : V3 α) :
+    intersectTriangle ray vertex0 vertex1 vertex2 =
+      (let edge1 := vertex1 - vertex0
+       let edge2 := vertex2 - vertex0
+       let h := ray.direction.cross edge2
+       let a := edge1.dot h
+       let tiny : α := tiny100
+       if a >. -tiny && a <. tiny then none else
+       let f : α := 1 / a
+       let s := ray.origin - vertex0
+       let u := f * (s.dot h)
+       if !((0 : α) <=. u && u <=. (1 : α)) then none else
+       let q := s.cross edge1
+       let v := f * (ray.direction.dot q)
+       if !((0 : α) <=. v && v <=. (1 : α)) || (u + v) >. (1 : α) then none else
+       let t := f * (edge2.dot q)
+       if t >. tiny then some (ray.project t, u, v) else none) := rfl
+
 /-- **Möller–Trumbore is sound** -/
 theorem mt_sound {ray : Ray ℝ} {v0 v1 v2 p : V3 ℝ} {u v : ℝ}
     (h : intersectTriangle ray v0 v1 v2 = some (p, u, v)) :
     ∃ t : ℝ, (tiny100 : ℝ) < t ∧ p = ray.project t ∧
       p = v0 + (v1 - v0).smul u + (v2 - v0).smul v ∧ 0 ≤ u ∧ 0 ≤ v ∧ u + v ≤ 1 := by
-  unfold intersectTriangle at h
+  rw [intersectTriangle_eq] at h
   simp only [] at h
   split_ifs at h with h1 h2 h3 h4
   simp only [Option.some.injEq, Prod.mk.injEq] at h
